@@ -29,6 +29,23 @@ pub struct HCall {
     pub call: Call,
 }
 
+/// TLA+ source files stay ASCII: %NU% stands for the nu sign, %RHO% for a one-character Greek label
+pub fn unplace(s: &str) -> String {
+    s.replace("%NU%", "ν").replace("%RHO%", "ρ")
+}
+
+fn unplace_prog(prog: &Value) -> Value {
+    let mut p = prog.clone();
+    if let Some(a) = p.as_array_mut() {
+        for c in a {
+            if let Some(l) = c.get("a").and_then(|x| x.as_str()).map(unplace) {
+                c["a"] = json!(l);
+            }
+        }
+    }
+    p
+}
+
 /// usize::MAX travels as -1 (TLC integers are 32 bit)
 fn jid(v: &usize) -> Value {
     if *v == usize::MAX {
@@ -73,7 +90,7 @@ impl HCall {
             "reload" => Call::Reload { dst: u("dst") },
             "slice" => Call::Slice { dst: u("dst"), v: u("v"), p: Pred::from_json(&v["p"]) },
             "merge" => Call::Merge { src: u("src"), left: u("left"), right: u("right") },
-            "deploy" => Call::Deploy { text: s("text"), prog: v.get("prog").cloned().unwrap_or(json!([])), fault_at: v.get("fault_at").and_then(|x| x.as_u64()).unwrap_or(0) as usize },
+            "deploy" => Call::Deploy { text: unplace(&s("text")), prog: unplace_prog(&v.get("prog").cloned().unwrap_or(json!([]))), fault_at: v.get("fault_at").and_then(|x| x.as_u64()).unwrap_or(0) as usize },
             "new" => Call::New { n: u("n"), cap: u("cap") },
             o => panic!("unknown op {o}"),
         };
@@ -211,7 +228,7 @@ impl World {
                 self.gs[*src] = Some(other);
                 r
             }
-            Call::Deploy { text, .. } => match self.gs[h].as_mut().unwrap().deploy(&text.replace("%NU%", "ν")) {
+            Call::Deploy { text, .. } => match self.gs[h].as_mut().unwrap().deploy(&unplace(text)) {
                 Err(p) => Ret::Panic(p),
                 Ok(Err(e)) => Ret::Err(e),
                 Ok(Ok(c)) => Ret::Count(c),
